@@ -92,7 +92,7 @@ def classify(r):
 def subscribe_failed(r):
     """None unless `r` is a subscription whose stream resolver failed (error / panic: no stream was created);
     then "" when the response is the request error the spec prescribes, else what is wrong with it"""
-    if not r["query"].startswith("subscription") or any(i["kind"] in ("stream", "value") and "/" not in i["path"] for i in r["log"]):
+    if not r["query"].startswith("subscription") or any(i["kind"] in ("stream", "value") and "/" not in i["path"] and i["hook"] == "resolver" for i in r["log"]):
         return None
     roots = [i for i in r["log"] if "/" not in i["path"] and i["hook"] == "resolver"]
     if len(roots) != 1 or roots[0]["kind"] not in ("error", "panic"):
